@@ -176,6 +176,7 @@ func (o *origin) handler(w http.ResponseWriter, r *http.Request) {
 	}
 	w.Header().Set("X-Tag-Echo", tag)
 	w.Header().Set("X-Proto", r.Proto)
+	w.Header().Set("X-Origin", o.addr)
 	if kind == "close" {
 		w.Header().Set("Connection", "close")
 	}
@@ -949,6 +950,8 @@ func phaseH3(cr *childResult, seed uint64, quick bool) {
 					return
 				case <-time.After(2 * time.Millisecond):
 					c.GetTransport().CloseIdleConnections()
+					// NOT req.VerifH3CloseIdle: Transport.CloseIdleConnections does not reach the
+					// HTTP/3 cache, and no public path does (see design.d/C09.md, observations)
 				}
 			}
 		}()
